@@ -208,7 +208,20 @@ def run(ck):
     ck.clause("C11.16", "a peak keeps the score it is given (as C16.8): a rounded score turns near-equal candidates of the two strands into "
                         "a tie, which enumeration order - forward first - decides")
     from .c12 import stored_unconverted as _su11
-    _su11(RuleView(ck, {"C12.7": "C11.16"}, only_files=("src/correlation/peak.py",)), "C12.7")
+    if ck.wants("C11.16"):
+        _su11(RuleView(ck, {"C12.7": "C11.16"}, only_files=("src/correlation/peak.py",)), "C12.7")
+    ck.clause("C11.17", "the reverse strand's vector is the forward vector reversed, so the forward vector must end in the last label's "
+                        "bin: nothing is padded, cut or re-sized between vectorisation and blur (as C16.6) - a padded tail becomes a "
+                        "shifted head on the reverse strand only")
+    from .c16 import sequence_is_blurred_vectorisation as _sibv11
+    if ck.wants("C11.17"):
+        _sibv11(RuleView(ck, {"C16.6": "C11.17"}))
+    ck.clause("C11.18", "conflict resolution removes exactly the positions it is told to (as C15.1 :predicate): positions matched by "
+                        "label number alone confuse a reference label with the query label of the same number - which is another "
+                        "label after mirroring")
+    from . import c15 as _c15_11
+    if ck.wants("C11.18"):
+        _c15_11.run(RuleView(ck, {"C15.1": "C11.18"}, only_constructs=(":predicate",)))
     ck.clause("C11.13", "whether two neighbouring segments are in conflict is decided from coordinates alone: no pre-test on label "
                         "numbers, which descend along a reverse-strand query (as C15.6)")
     from .c15 import conflict_decision
